@@ -632,6 +632,7 @@ func genFwdAct(rng *rand.Rand, x *fwdExec, i, nEv int) fwdAct {
 
 // TestFwdGen: seeded random executions (VERIF_N executions of VERIF_LEN events).
 func TestFwdGen(t *testing.T) {
+	defer watchDriver("TestFwdGen")()
 	w := newTrace("fwd_gen.ndjson")
 	defer w.Close()
 	nTraces, nEv := envInt("VERIF_N", 200), envInt("VERIF_LEN", 60)
@@ -671,6 +672,7 @@ func loadSched(path string) []fwdAct {
 // TestFwdSched: replays TLC-generated schedules ($VERIF_SCHED/*.ndjson) and stored
 // violation segments ($VERIF_REPLAY) on the real thread.
 func TestFwdSched(t *testing.T) {
+	defer watchDriver("TestFwdSched")()
 	var files []string
 	if r := os.Getenv("VERIF_REPLAY"); r != "" {
 		files = []string{r}
